@@ -277,6 +277,18 @@ func genFor(t *rapid.T, forCLI bool) Case {
 	} else {
 		pool = rapid.SliceOfN(pkgGen(12, segAlphabet), rapid.IntRange(1, 3).Draw(t, "minPkgs"), 4).Draw(t, "pkgs")
 	}
+	// eighth seed batch: package names that collide under the 32-bit hashes a table may be keyed by (FNV-1a:
+	// altarage / zinke, costarring / liquid, declinate / macallums; CRC-32: plumless / buckeroo, codding / gnu);
+	// as whole packages and below a common stem
+	if rapid.IntRange(0, 9).Draw(t, "hashTwinPackages") == 9 {
+		twins := []string{"altarage", "zinke", "costarring", "liquid", "declinate", "macallums", "plumless", "buckeroo", "codding", "gnu"}
+		if rapid.Bool().Draw(t, "hashTwinStem") {
+			for i := range twins {
+				twins[i] = "com.acme." + twins[i]
+			}
+		}
+		pool = twins[:rapid.SampledFrom([]int{2, 4, 6, 10}).Draw(t, "hashTwinCount")]
+	}
 	// size: 0-10 the usual model of 0-7 types; 11 a large one of 8-70 types over up to 8 more
 	// packages (DOT ids node10, node64, cluster100; maps and slices past 8, 16, 32, 64 entries)
 	minClasses, maxClasses, maxTarget := rapid.IntRange(0, 5).Draw(t, "minClasses"), 7, 6
